@@ -86,6 +86,7 @@ def run(ctx):
         o.rule = 'C13.R3'
     ctx.obs[before:] = kept
 
+    subslice_composition(ctx, 'C13.R1')
     # ---- R4 default labels, label validation, well names (Plate.__init__)
     pi = model.func('Plate.__init__')
     ff = ctx.flow('Plate.__init__')
@@ -238,3 +239,86 @@ def _label_offset(elt):
             isinstance(const_value(e.right), int):
         return -const_value(e.right)
     return None
+
+
+def subslice_composition(ctx, rule):
+    """A slice of a slice: composing the stored slice [s:e:t] with a sub-slice [a:b:k] gives start s + a*t, stop from
+    s + b*t, step t*k.  Decided as field-sensitive non-interference on the composing function (found by its role: the
+    method of Slicer that takes two `slice` parameters): the new start and stop never depend on the sub-slice's step,
+    the new step depends on both steps, the new start on the outer start and step and on the sub-slice's start."""
+    from ..model import Model
+    from ..flow import FuncFlow, Ref, Phi, Param, strip_refs, deep_walk
+    plain = Model(root=ctx.model.root, inline=False)          # the helper itself (the main model expands it into its callers)
+    cands = []
+    for fi in plain.functions('pyplate/slicer.py'):
+        if fi.cls is None or fi.cls.name != 'Slicer' or fi.parent is not None:
+            continue
+        sl = [p for p in fi.all_param_names() if (fi.annotation(p) or '').strip("'\"") == 'slice']
+        if len(sl) == 2:
+            cands.append((fi, sl))
+    if len(cands) != 1:
+        ctx.count('subslice_composition', 0)
+        return
+    fi, (outer, sub) = cands[0]
+    ff = FuncFlow(fi, plain)
+
+    def deps(e, seen, depth=0):
+        out = set()
+        if e is None or depth > 60 or id(e) in seen:
+            return out
+        seen.add(id(e))
+        if isinstance(e, Ref):
+            return deps(e.value, seen, depth + 1)
+        if isinstance(e, Phi):
+            for o in e.options:
+                out |= deps(o, seen, depth + 1)
+            return out
+        if isinstance(e, ast.Attribute) and e.attr in ('start', 'stop', 'step'):
+            for base in _bases(e.value):
+                if isinstance(base, Param) and base.name in (outer, sub):
+                    out.add((base.name, e.attr))
+                elif isinstance(base, ast.Call) and isinstance(base.func, ast.Name) and base.func.id == 'slice' and len(base.args) == 3:
+                    out |= deps(base.args[('start', 'stop', 'step').index(e.attr)], seen, depth + 1)
+                else:
+                    out |= deps(base, seen, depth + 1)
+            return out
+        if isinstance(e, ast.AST):
+            for c in ast.iter_child_nodes(e):
+                if isinstance(c, (ast.expr_context, ast.operator, ast.cmpop, ast.boolop, ast.unaryop)):
+                    continue
+                out |= deps(c, seen, depth + 1)
+        return out
+
+    def _bases(v, depth=0):
+        if depth > 20:
+            return [v]
+        if isinstance(v, Ref):
+            return _bases(v.value, depth + 1)
+        if isinstance(v, Phi):
+            out = []
+            for o in v.options:
+                out.extend(_bases(o, depth + 1))
+            return out
+        return [v]
+    n = 0
+    for ex in ff.normal_exits():
+        v = ex.value
+        for b in _bases(v):
+            if not (isinstance(b, ast.Call) and isinstance(b.func, ast.Name) and b.func.id == 'slice' and len(b.args) == 3):
+                continue
+            n += 1
+            s_, e_, k_ = (deps(a, set()) for a in b.args)
+            problems = []
+            if (sub, 'step') in s_:
+                problems.append("the new start depends on the sub-slice's step")
+            if (sub, 'step') in e_:
+                problems.append("the new stop depends on the sub-slice's step")
+            if not {(outer, 'step'), (sub, 'step')} <= k_:
+                problems.append('the new step is not composed of both steps')
+            if not {(outer, 'start'), (outer, 'step'), (sub, 'start')} <= s_:
+                problems.append('the new start is not the outer start plus the sub-slice start times the outer step')
+            ctx.ob(rule, ctx.model.func('Slicer.__init__'), ex.line, f"{fi.qualname}: a slice of a slice addresses start + a*step, with step t*k",
+                   not problems, fact=f"start <- {sorted(s_)}; stop <- {sorted(e_)}; step <- {sorted(k_)}",
+                   why='; '.join(problems) + ': a stepped sub-slice addresses the wrong rows / columns',
+                   key='sub-slice composition')
+    ctx.count('subslice_composition', n)
